@@ -98,3 +98,20 @@ Qed.
 
 Lemma USIZE_MAX_neq0 : (USIZE_MAX =? 0) = false.
 Proof. reflexivity. Qed.
+
+Lemma mul_div_exact n a b : b <> 0 -> a mod b = 0 -> n * a / b = n * (a / b).
+Proof.
+  intros Hb Hm. pose proof (div_exact_mul a b Hb Hm) as E.
+  rewrite <- E at 1. rewrite N.mul_assoc. apply N.div_mul. exact Hb.
+Qed.
+
+Lemma mul_mod_exact n a b : b <> 0 -> a mod b = 0 -> (n * a) mod b = 0.
+Proof.
+  intros Hb Hm. pose proof (div_exact_mul a b Hb Hm) as E.
+  rewrite <- E. rewrite N.mul_assoc. apply N.mod_mul. exact Hb.
+Qed.
+
+(* C14: the compile-time predicates of the must_ casts, and what they mean *)
+Definition slice_infallible (A B : ty) : Prop :=
+  al B <= al A /\ (sz A = 0 \/ (sz B <> 0 /\ sz A mod sz B = 0)).
+Definition ref_infallible (A B : ty) : Prop := al B <= al A /\ sz A = sz B.
